@@ -23,11 +23,11 @@ RULE = ("pairs of maze objects of all three kinds (identical object, equal copie
         "non-trivial & distinct = distinct (pair class, kind, data) pairs of two different objects")
 ASSUMPTIONS = ["reference equality is the statement's: same kind, identical connection structure, start, end and solution"]
 NSHARDS = {"quick": 16, "thorough": 16}
-_PAIR = ["identical", "copy", "copy-dtype", "bitflip", "endpoint", "solcell", "sollen", "shape", "kind", "meta"]
+_PAIR = ["identical", "copy", "copy-dtype", "copy-layout", "bitflip", "endpoint", "solcell", "sollen", "shape", "kind", "meta"]
 THRESHOLDS = {"quick": {**{f"c09:pair:{p}": 50 for p in _PAIR}, "c09:hash:LatticeMaze": 100, "c09:hash:TargetedLatticeMaze": 100,
                         "c09:hash:SolvedMaze": 100, "c09:set-dedup": 100, "c09:dataset-eq": 30, "c09:ctor:in-range": 300,
                         "c09:ctor:negative": 300, "c09:ctor:too-large": 300, "c09:ctor:solved": 200, "c09:big-pairs": 40, "c09:dataset-eq-big": 40,
-                        "c09:travelled:hashed-first": 10, "c09:travelled:never-hashed": 10, "c09:caller-arrays": 300}}
+                        "c09:travelled:hashed-first": 10, "c09:travelled:never-hashed": 10, "c09:caller-arrays": 300, "c09:dataset-boundary-shift": 8}}
 THRESHOLDS["thorough"] = dict(THRESHOLDS["quick"])
 ANCHORS = ["maze_dataset.maze.lattice_maze:TargetedLatticeMaze.__post_init__",
            "maze_dataset.maze.lattice_maze:LatticeMaze.__hash__",
@@ -64,6 +64,19 @@ def _make(kind, d, meta=None, dtype=None):
     return SolvedMaze(connection_list=cl, solution=np.array(d["path"], dtype=dtype), generation_meta=meta)
 
 
+def _make_layout(kind, d):
+    from maze_dataset.maze.lattice_maze import LatticeMaze, SolvedMaze, TargetedLatticeMaze
+
+    cl = np.asfortranarray(np.array(d["cl"], dtype=bool))
+    if kind == "LatticeMaze":
+        return LatticeMaze(connection_list=cl)
+    if kind == "TargetedLatticeMaze":
+        return TargetedLatticeMaze(connection_list=cl, start_pos=np.array([d["s"], d["e"]]).T[:, 0], end_pos=np.array([d["s"], d["e"]]).T[:, 1])
+    rows = [p[0] for p in d["path"]]; cols = [p[1] for p in d["path"]]
+    sol = np.array([rows, cols]).T          # F-ordered view with the same cells
+    return SolvedMaze(connection_list=cl, solution=sol)
+
+
 def _ref_eq(k1, d1, k2, d2):
     if k1 != k2:
         return False
@@ -81,7 +94,7 @@ def _mutate(pc, kind, d, rng):
     d2 = dict(cl=d["cl"].copy(), s=d["s"], e=d["e"], path=list(d["path"]))
     R, C = d["cl"].shape[1:]
     g = Graph(d["cl"])
-    if pc in ("identical", "copy", "meta", "copy-dtype"):
+    if pc in ("identical", "copy", "meta", "copy-dtype", "copy-layout"):
         return kind, d2
     if pc == "bitflip":
         slots = ref.lattice_edge_slots(R, C)
@@ -189,6 +202,9 @@ def run(ctx):
             elif pc == "copy-dtype":
                 # same values stored with the dtype the minimal on-disk formats use
                 b = _make(kind2, d2, dtype=np.int8)
+            elif pc == "copy-layout":
+                # same values in another memory layout (a transposed (2,n) array, what np.array([rows, cols]).T or argwhere give)
+                b = _make_layout(kind2, d2)
             else:
                 b = _make(kind2, d2)
         except Exception as e:  # noqa: BLE001
@@ -254,7 +270,7 @@ def _datasets(ctx, n):
             continue
         rng = ctx.sub_rng("ds", i)
         ds_data = [_data(rng, 3, 3) for _ in range(int(rng.integers(0, 4)))]
-        variant = ["same", "maze-differs", "cfg-differs", "length-differs", "identical-object"][i % 5]
+        variant = ["same", "maze-differs", "cfg-differs", "length-differs", "identical-object", "boundary-shift"][i % 6]
         d2 = [dict(cl=d["cl"].copy(), s=d["s"], e=d["e"], path=list(d["path"])) for d in ds_data]
         name2 = "a"
         if variant == "maze-differs":
@@ -265,6 +281,15 @@ def _datasets(ctx, n):
             if mut is None:
                 continue
             d2[k] = mut[1]
+        elif variant == "boundary-shift":
+            # two mazes on one connection structure; the same cells overall, but the cut between the two solutions sits one cell
+            # later ([a b c][d e] vs [a b][c d e]): the maze lists differ although everything concatenated is equal
+            base = _data(rng, 3, 3)
+            walk = [(0, 0), (0, 1), (0, 2), (1, 2), (1, 1), (1, 0), (2, 0)]
+            k = int(rng.integers(2, len(walk) - 2))
+            ds_data = [dict(cl=base["cl"], s=walk[0], e=walk[k], path=walk[:k + 1]), dict(cl=base["cl"], s=walk[k + 1], e=walk[-1], path=walk[k + 1:])]
+            d2 = [dict(cl=base["cl"].copy(), s=walk[0], e=walk[k - 1], path=walk[:k]), dict(cl=base["cl"].copy(), s=walk[k], e=walk[-1], path=walk[k:])]
+            ctx.tally("c09:dataset-boundary-shift")
         elif variant == "cfg-differs":
             name2 = "b"
         elif variant == "length-differs":
